@@ -570,6 +570,84 @@ let run_map mo jo impl secs =
        if !fa <> "" || !fb <> "" then judge jo "C12" id "range constructor and raw-file constructor wrote different files" (!fa = !fb))
   | _ -> ()
 
+(* ---- MUL: MultidimensionalPGMIndex ---- *)
+let run_mul mo jo impl secs =
+  match secs with
+  | ("MUL" :: id :: _name :: dims :: tbits :: eps :: epsrec :: _) :: _ ->
+    let kt = { kbits = zin tbits; ksigned = false } in
+    let c = { c_kt = kt; c_eps = zin eps; c_epsrec = zin epsrec; c_fdouble = false; c_par = zi 1; c_avx512 = !avx512 } in
+    let m = { m_dims = zin dims; m_tbits = zin tbits; m_cfg = c } in
+    let pt s = List.map zin (String.split_on_char ':' s) in
+    let show p = String.concat ":" (List.map zout p) in
+    let points = List.map pt (nth_sec secs 1) in
+    pr mo "C %s\n" id;
+    (match multi_build m points with
+     | Err e -> pr mo "B %s\n" (err_name e)
+     | Ok mu ->
+       pr mo "B ok\nD%s\n" (String.concat "" (List.map (fun x -> " " ^ zout x) mu.mu_data));
+       List.iter (fun b ->
+         match String.split_on_char '/' b with
+         | [lo; hi] ->
+           (match multi_range m mu (pt lo) (pt hi) with
+            | Ok l -> pr mo "R %s%s\n" b (String.concat "" (List.map (fun p -> " " ^ show p) l))
+            | Err e -> pr mo "R %s %s\n" b (err_name e))
+         | _ -> ()) (nth_sec secs 2);
+       List.iter (fun p -> match multi_contains m mu (pt p) with
+         | Ok r -> pr mo "K %s %d\n" p (if r then 1 else 0)
+         | Err e -> pr mo "K %s %s\n" p (err_name e)) (nth_sec secs 3);
+       List.iter (fun g -> match List.map zin (String.split_on_char ':' g) with
+         | [x; a; b] -> pr mo "G %s %s %d\n" g (zout (bigmin m x a b)) (if box_zcontains m a b x then 1 else 0)
+         | _ -> ()) (nth_sec secs 4));
+    (* judges *)
+    (match Hashtbl.find_opt impl id with
+     | None -> ()
+     | Some lines ->
+       let codes = List.concat_map (function "D" :: t -> List.map zin t | _ -> []) lines in
+       let inbox lo hi p = List.for_all2 (fun (a, b) x -> ZA.leq (zz_of_z a) (zz_of_z x) && ZA.leq (zz_of_z x) (zz_of_z b)) (List.combine lo hi) p in
+       let pset = Hashtbl.create 256 in
+       List.iter (fun p -> Hashtbl.replace pset (show p) ()) points;
+       (* the stored codes are the sorted encodings of the points *)
+       let expect_codes = List.sort ZA.compare (List.map (fun p -> zz_of_z (encode m p)) points) in
+       if List.exists (function "D" :: _ -> true | _ -> false) lines then
+         judge jo "C13" id "stored codes are not the sorted Morton codes of the points" (List.map zz_of_z codes = expect_codes);
+       List.iter (fun toks -> match toks with
+         | "R" :: b :: res ->
+           (match String.split_on_char '/' b with
+            | [lo; hi] ->
+              let lo = pt lo and hi = pt hi in
+              if List.for_all2 (fun a b -> ZA.leq (zz_of_z a) (zz_of_z b)) lo hi then begin
+                let exp = List.filter_map (fun cde -> let p = decode m cde in if inbox lo hi p then Some (show p) else None) codes in
+                judge jo "C13" id ("range " ^ b ^ " returned [" ^ String.concat " " res ^ "] expected [" ^ String.concat " " exp ^ "]") (res = exp)
+              end
+            | _ -> ())
+         | ["K"; p; r] -> judge jo "C14" id ("contains " ^ p ^ " = " ^ r) ((r = "1") = Hashtbl.mem pset (show (pt p)))
+         | ["G"; g; bm; _] ->
+           (match List.map zin (String.split_on_char ':' g) with
+            | [x; a; b] ->
+              let lo = decode m a and hi = decode m b in
+              let vol = List.fold_left2 (fun acc l h -> if acc > 5000 then acc else acc * (max 0 (iz h - iz l + 1))) 1 lo hi in
+              if vol > 0 && vol <= 5000 then begin
+                (* brute force: least code of a box point that is greater than x (0 if none) *)
+                let best = ref None in
+                let rec enum acc lo hi = match lo, hi with
+                  | [], [] ->
+                    (* independent native Morton encoding for the oracle *)
+                    let d = iz m.m_dims in
+                    let cdi = ref 0 in
+                    List.iteri (fun i v -> let x = ref (iz v) and b = ref 0 in
+                      while !x <> 0 do (if !x land 1 = 1 then cdi := !cdi lor (1 lsl (!b * d + i))); x := !x lsr 1; incr b done) (List.rev acc);
+                    let cd = ZA.of_int !cdi in
+                    if ZA.gt cd (zz_of_z x) then (match !best with Some v when ZA.leq v cd -> () | _ -> best := Some cd)
+                  | l :: lt, h :: ht -> for v = iz l to iz h do enum (zi v :: acc) lt ht done
+                  | _ -> () in
+                enum [] lo hi;
+                let exp = match !best with Some v -> ZA.to_string v | None -> "0" in
+                judge jo "C13" id ("bigmin " ^ g ^ " = " ^ bm ^ " expected " ^ exp) (bm = exp)
+              end
+            | _ -> ())
+         | _ -> ()) lines)
+  | _ -> ()
+
 let () =
   let mode = Sys.argv.(1) in
   let cases = Sys.argv.(2) and implf = Sys.argv.(3) and modelf = Sys.argv.(4) and judgef = Sys.argv.(5) in
@@ -583,6 +661,7 @@ let () =
     | "dyn" -> run_dyn mo jo impl secs
     | "var" -> run_bkt mo jo impl secs; run_efi mo jo impl secs
     | "map" -> run_map mo jo impl secs
+    | "mul" -> run_mul mo jo impl secs
     | _ -> failwith "unknown mode") (read_lines cases);
   Hashtbl.iter (fun prop (n, f) -> pr jo "JSUM %s %d %d\n" prop n f) jcount;
   close_out mo; close_out jo
